@@ -206,7 +206,15 @@ impl<const N: usize> ZEx<N> {
                 if expect_panic {
                     self.stats.doc_panics += 1;
                 } else {
-                    self.fail(cls::ZST | cls::PANIC_SPEC, format!("{} panicked at capacity {N}: {m}", self.cur_op.name()));
+                    let own = match self.cur_op {
+                        Op::PushBack | Op::PushFront | Op::TryPushBack | Op::TryPushFront | Op::Fill => cls::RET | cls::IDENT,
+                        Op::Drain => cls::DRAIN,
+                        Op::FromArray | Op::CloneTo | Op::CloneFrom | Op::IntoIter | Op::ToVec => cls::CTOR,
+                        Op::CmpBufs | Op::DebugFmt => cls::CMP,
+                        Op::Iter | Op::Range | Op::IterMut | Op::RangeMut => cls::ITER,
+                        _ => cls::RET,
+                    };
+                    self.fail(cls::ZST | cls::PANIC_SPEC | own, format!("{} panicked at capacity {N}: {m}", self.cur_op.name()));
                 }
                 None
             }
@@ -343,7 +351,9 @@ impl<const N: usize> ZEx<N> {
                         // returns (len reported at the start, items yielded, drained items)
                         macro_rules! walk {
                             ($it:expr, $keep:expr) => {{
-                                let mut it = $it;
+                                // ManuallyDrop: if a sub-step panics the iterator is not dropped
+                                // during unwinding (a second panic in its Drop would abort)
+                                let mut it = std::mem::ManuallyDrop::new($it);
                                 let l0 = it.len();
                                 let mut y = 0usize;
                                 let mut kept: Vec<Zst> = Vec::new();
@@ -364,8 +374,8 @@ impl<const N: usize> ZEx<N> {
                                 if l0 - y != l1 {
                                     y = usize::MAX;
                                 }
-                                if forget {
-                                    std::mem::forget(it);
+                                if !forget {
+                                    drop(std::mem::ManuallyDrop::into_inner(it));
                                 }
                                 (l0, y, kept)
                             }};
@@ -529,7 +539,7 @@ impl<const N: usize> ZEx<N> {
             self.bufs[x] = Some(Box::new(CircularBuffer::new()));
             if st.op == Op::IntoIter {
                 let r = self.call(false, move || {
-                    let mut it = (*buf).into_iter();
+                    let mut it = std::mem::ManuallyDrop::new((*buf).into_iter());
                     let l0 = it.len();
                     let mut kept = Vec::new();
                     for w in word.iter() {
@@ -544,7 +554,9 @@ impl<const N: usize> ZEx<N> {
                             kept.push(t);
                         }
                     }
-                    (l0, it.len(), kept)
+                    let l1 = it.len();
+                    drop(std::mem::ManuallyDrop::into_inner(it));
+                    (l0, l1, kept)
                 });
                 self.allocs = 0;
                 may_alloc = true;
